@@ -65,7 +65,7 @@ end
 /-- **write, then lex**: whatever document with nested blocks is emitted, its text lexes to the expected tokens
 (`treeDocToks`, positions included); read without positions they are the envelope, then per line an INDENT token valued
 `2 * depth` (none at depth 0) followed by `IDENTIFIER ASSIGN value NEWLINE` or `IDENTIFIER BLOCK NEWLINE`, then
-`ENVELOPE_END NEWLINE EOF`; no token carries `normFrom` / `raw`, and there is no normalisation receipt. -/
+`ENVELOPE_END NEWLINE EOF`; no token carries `normFrom` (none was normalised), and there is no normalisation receipt. -/
 theorem C01_tree_emit_then_lex (env : Env) (lenient : Bool) (name : Str) (pos : Nat → Nat → Nat × Nat) (nodes : List TNode)
     (hn : isEnvName name = true) (hne : name ≠ "END".toList) (hok : treeOK nodes) (hem : treeEmitOK nodes)
     (hnfc : ∀ l ∈ splitLines (treeDocText name nodes), env.nfc l = l) :
